@@ -11,6 +11,10 @@ What this adds on top of vf.specfun:
   * run(): cost-balanced deterministic distribution of the cells over the shards; a fixed number of evaluations per
     cell and tier (seed independent set of cells; the seed only varies the concrete arguments and precisions).
   * generator helpers aimed at algorithm switch points that depend on the precision.
+  * time limits are CPU-time limits of the worker (ITIMER_PROF), so no verdict depends on the load of the machine; a call
+    under test that does not return within its limit while all reference evaluations together (release at two precisions
+    and the tree itself at 3p+300 bits) take less than a tenth of it is reported as <PROP>/<function>/no-return.
+  * ENVELOPE helpers (capped, pole distance in the property modules): distance to a pole / singular point >= 4 * 2^-p.
 Verdict discipline is the one of vf.specfun.evaluate_case (guard band, undecided never folded).
 """
 import math, time, collections
